@@ -36,6 +36,12 @@ must not come back after the handle was cleared (clause stale-world).  After a f
 oracle no longer knows which resources were loaded on the way, so it only insists on the handle id
 of a loaded resource (`R<hid>.*`), not on the load counter.
 
+Callbacks that act on the world (`react` lines: suspend / resume dispatching, create entities, add
+and remove components, dispatch events): the loaded world is judged as before (it is looked at
+before dispatching is enabled); of the callback log the statement fixes, for every listed handler
+component whose entity no reaction touches, what it hears of the load: on_add(entity, world) once,
+then on_world_load(handle, world) once, in this order — whatever else it hears in between.
+
 What it leaves open (nothing is demanded, whatever happens is accepted):
   * strings that begin with a marker but are not exactly marker + name + "}" with a name free of
     "}" and newline (DESIGN section 2),
@@ -200,14 +206,86 @@ def well_formed(sc, procs, ents):
     return len(set(ids)) == len(ids)
 
 
+class RMap:
+    """the oracle's picture of one ResourceMap object"""
+
+    def __init__(self, mid):
+        self.mid, self.items, self.parent = mid, {}, None
+
+
 class TreeAccount:
-    """the oracle's own account of the resource tree between loads"""
+    """the oracle's own account of the resource trees between loads: map objects with their
+    contents and parents; `tree` is what can be reached NOW from the root above the world handle"""
+    uncertain = False       # a failed load may have loaded some resources on its way
 
     def __init__(self, sc):
-        self.tree = sc.tree_table()
         self.cached, self.counts = {}, {}
+        self.inner, self.outer = RMap(0), RMap(1000000)
+        self.world_parent = None
+        self.implicit = 0
+        for root, entries in ((self.inner, sc.tree), (self.outer, [(p, k, x) for p, k, x in sc.tree2])):
+            for path, kind, payload in entries:
+                self.put(root, path, (kind, payload))
 
-    uncertain = False       # a failed load may have loaded some resources on its way
+    def put(self, root, path, node):
+        parts = path.split('/')
+        m = root
+        for p in parts[:-1]:
+            nxt = m.items.get(p)
+            if not isinstance(nxt, RMap):
+                self.implicit += 1
+                nxt = RMap(f'implicit{self.implicit}')
+                nxt.parent = m
+                m.items[p] = nxt
+            m = nxt
+        kind, payload = node
+        if kind == 'map':
+            child = payload if isinstance(payload, RMap) else RMap(payload)
+            child.parent = m
+            m.items[parts[-1]] = child
+        else:
+            m.items[parts[-1]] = node
+            if kind == 'world':
+                self.world_parent = m
+
+    def root(self):
+        m = self.world_parent or self.inner
+        while m.parent is not None:
+            m = m.parent
+        return m
+
+    def find(self, path, root=None):
+        m = root or self.root()
+        parts = path.split('/')
+        for p in parts[:-1]:
+            m = m.items.get(p)
+            if not isinstance(m, RMap):
+                return None
+        return m.items.get(parts[-1])
+
+    @property
+    def tree(self):
+        """path -> (kind, payload) for everything below the root above the world handle"""
+        out = {}
+
+        def rec(m, prefix, seen):
+            for name, n in m.items.items():
+                if isinstance(n, RMap):
+                    out[prefix + name] = ('map', n.mid)
+                    if id(n) not in seen:
+                        rec(n, prefix + name + '/', seen | {id(n)})
+                else:
+                    out[prefix + name] = n
+        rec(self.root(), '', {id(self.root())})
+        return out
+
+    @property
+    def world_path(self):
+        return next((p for p, (k, _) in sorted(self.tree.items(), key=lambda e: len(e[0])) if k == 'world'), None)
+
+    @property
+    def in_outer(self):
+        return self.root() is self.outer
 
     def gen_of(self, hid):
         if self.uncertain:
@@ -224,7 +302,16 @@ class TreeAccount:
         if st[0] == 'clear':
             self.cached.pop(st[1], None)
         elif st[0] == 'replace':
-            self.tree[st[1]] = ('handle', st[2])
+            self.put(self.root(), st[1], ('handle', st[2]))
+        elif st[0] == 'mount':
+            m = self.root() if st[1] == '-' else self.find(st[1])
+            if isinstance(m, RMap):
+                self.put(self.outer, st[2], ('map', m))
+        elif st[0] == 'unmount':
+            for n in self.outer.items.values():
+                if isinstance(n, RMap) and n.parent is self.outer:
+                    n.parent = None
+            self.outer.items = {}
 
 
 def split_blocks(obs):
@@ -262,7 +349,7 @@ def oracle(lines, obs, pid='C15'):
             status = 'ok'
         else:
             sc.touched = set()
-            verdict, status = check_load(sc, acct.tree, block, pid, k + 1)
+            verdict, status = check_load(sc, acct.tree, block, pid, k + 1)      # the tree as it is NOW
             if verdict:
                 return verdict
             if status == 'stop':
@@ -273,7 +360,7 @@ def oracle(lines, obs, pid='C15'):
                 acct.called(sorted(sc.touched))
                 if kind in ('call', 'reload'):
                     handle_has_world = True
-        while steps and steps[0][0] in ('clear', 'replace'):
+        while steps and steps[0][0] in ('clear', 'replace', 'mount', 'unmount'):
             acct.step(steps.pop(0))
         if not steps:
             return []
@@ -320,6 +407,16 @@ def check_load(sc, tree, obs, pid, nth):
                  f'every reference of the description can be resolved, yet loading {o["res"]}'), 'stop'
     out = check_world(sc, o, procs, ents, V)
     return (out[:1] if out else []), ('stop' if free else 'ok')
+
+
+def touched_entities(sc):
+    """identifiers of entities some scripted reaction adds to, removes from or re-creates"""
+    out = set()
+    for ops in sc.reactions.values():
+        for op in ops:
+            if op[0] in ('add', 'remove', 'spawn') and op[1] != '-':
+                out.add(op[1])
+    return out
 
 
 def check_world(sc, o, procs, ents, V):
@@ -390,7 +487,12 @@ def check_world(sc, o, procs, ents, V):
                     want_cb.append((ev['on_add'], f'E{idtok},W'))
                 if 'on_world_load' in ev and sc.mode != 'direct':
                     want_cb.append((ev['on_world_load'], 'HW,W'))
-                if [cb[1:] for _, cb in mine] != want_cb:
+                heard = [cb[1:] for _, cb in mine]
+                if sc.reactions:
+                    if idtok in touched_entities(sc):
+                        continue
+                    heard = [h for h in heard if h in want_cb]
+                if heard != want_cb:
                     out += V('callbacks', f'component {lab} of entity {idtok} must receive exactly {want_cb} '
                              f'(on_add once, then on_world_load once), received {[cb[1:] for _, cb in mine]}')
     if sc.mode != 'direct' and o.get('res-enable') != 'ok':
